@@ -525,3 +525,16 @@ package objects
 //@   loop 1: invariant inv_resvkeys(sa)
 //@   at[ownqueue] call objects.Queue.UnReserve#1: assert arg1 == res.app.ApplicationID && res.alloc.requiredNode == ""
 //@   at[theirqueue] call objects.Queue.UnReserve#2: assert arg0 == res.app.queue && arg1 == res.app.ApplicationID && res.alloc.requiredNode == ""
+
+//@ func (sa *Application) Reserve(node *Node, ask *Allocation) (err error)
+//@   props C09
+//@   mode nopanic=off
+//@   holds node != nil ==> inv_resv(node) && inv_exclusive(node)
+//@   holds inv_resvkeys(sa)
+//@   assigns sa.reservations[*], node.reservations[*]
+//@   ensures inv_resvkeys(sa)
+//@   ensures[nil] (node == nil || ask == nil) ==> err != nil
+//@   ensures[both] err == nil ==> sa.reservations[ask.allocationKey] != nil && sa.reservations[ask.allocationKey].nodeID == node.NodeID && sa.reservations[ask.allocationKey].node == node && node.reservations[ask.allocationKey] != nil && node.reservations[ask.allocationKey].alloc == ask
+//@   ensures[outstanding] err == nil ==> sa.requests[ask.allocationKey] != nil && !ask.allocated
+//@   ensures[atmostone] err == nil ==> old(sa.reservations[ask.allocationKey]) == nil
+//@   ensures[failed] err != nil ==> (forall k string :: sa.reservations[k] == old(sa.reservations[k]) && (k in sa.reservations) == old(k in sa.reservations))
